@@ -41,7 +41,7 @@ def place_demo(dst, demo, kind):
     return ['cargo', 'test', '--offline', '--test', 'demo']
 
 
-def confirm(pid, ab, src):
+def confirm(pid, ab, src, label=None):
     meta = json.load(open(os.path.join(src, 'meta.json')))
     m = meta[ab]
     patch = os.path.join(src, '%s.patch.diff' % ab)
@@ -76,7 +76,7 @@ def confirm(pid, ab, src):
     good = res.get('patch_applies') and res.get('suite_passes_with_patch') and res.get('demo_with_patch_fails') and res.get('demo_without_patch_passes')
     res['confirmed'] = bool(good)
     if good:
-        out = os.path.join(SEEDED, '%s-%s' % (pid, ab))
+        out = os.path.join(SEEDED, '%s-%s' % (pid, label or ab))
         os.makedirs(out, exist_ok=True)
         shutil.copy(patch, os.path.join(out, 'patch.diff'))
         shutil.copy(demo, os.path.join(out, 'demo.rs'))
@@ -129,7 +129,7 @@ def run_checks(only=None, tier='quick', all_props=False):
 
 if __name__ == '__main__':
     if sys.argv[1] == 'import':
-        r = confirm(sys.argv[2], sys.argv[3], sys.argv[4])
+        r = confirm(sys.argv[2], sys.argv[3], sys.argv[4], sys.argv[5] if len(sys.argv) > 5 else None)
         print(json.dumps(r, indent=1))
     elif sys.argv[1] == 'run':
         only = sys.argv[sys.argv.index('--only') + 1] if '--only' in sys.argv else None
